@@ -300,7 +300,7 @@ def probes_main(text, b):
     L = len(text)
     for sep in pats:
         for m in ('split', 'rsplit'):
-            for k in (-1, 0, 1, 2):
+            for k in (-1, -2, 0, 1, 2):
                 yield m, [sep, k]
         yield 'partition', [sep]
         yield 'rpartition', [sep]
@@ -318,7 +318,7 @@ def probes_main(text, b):
         if old not in text:
             continue
         for new in ('', 'z', 'zz', ['styled', 'one'], ['styled', 'two'], ['styled', 'str'], old):
-            for k in (-1, 0, 1, 2):
+            for k in (-1, -2, 0, 1, 2):
                 yield 'replace', [old, new, k]
 
 
